@@ -258,7 +258,9 @@ func checkC08(p *Prog, res *Result, tier string) {
 		}
 		errflowAcceptFailure, errflowNoClassification = true, true
 		checkErrorPreservation(p, res, "C08-R7",
-			func(g *ssa.Function) bool { return g.Pkg != nil && strings.HasPrefix(g.Pkg.Pkg.Path(), modPath+"/pkg/backend") },
+			func(g *ssa.Function) bool {
+				return g.Pkg != nil && strings.HasPrefix(g.Pkg.Pkg.Path(), modPath+"/pkg/backend")
+			},
 			func(c ssa.CallInstruction) (string, bool) {
 				sc := c.Common().StaticCallee()
 				if sc == nil || !writers[sc] {
